@@ -22,7 +22,7 @@ class Body(Task):
     fail: Meta[bool] = False
 
     def execute(self):
-        me = os.environ.get("XV_PROC", "?")
+        me = os.environ.get("XV_PROC", f"x{self.x}")
         _emit(self.log, {"e": "begin", "p": me, "pid": os.getpid()})
         if self.gatedir:
             gate = Path(self.gatedir) / f"gate.{me}"
